@@ -6,6 +6,196 @@ import Verif.Proofs.Refine.Lfu
 namespace Verif
 open Verif.Spec
 
+/-! ## sortedness of the multimap order -/
+
+/-- count ascending -/
+abbrev CntSorted (l : List Entry) : Prop := l.Pairwise (fun x y => x.cnt ≤ y.cnt)
+
+theorem cntSorted_fileCnt {l : List Entry} (h : CntSorted l) (e : Entry) : CntSorted (fileCnt l e) := by
+  induction l with
+  | nil => simp [fileCnt, CntSorted]
+  | cons x xs ih =>
+    have hx := List.pairwise_cons.mp h
+    simp only [fileCnt]
+    split
+    · rename_i hle
+      refine List.pairwise_cons.mpr ⟨?_, ih hx.2⟩
+      intro y hy
+      rcases mem_fileCnt.mp hy with hy | hy
+      · subst hy; exact hle
+      · exact hx.1 y hy
+    · rename_i hnle
+      refine List.pairwise_cons.mpr ⟨?_, h⟩
+      intro y hy
+      rcases List.mem_cons.mp hy with hy | hy
+      · subst hy; omega
+      · have := hx.1 y hy; omega
+
+theorem cntSorted_delE {l : List Entry} (h : CntSorted l) (k : Key) : CntSorted (delE l k) :=
+  List.Pairwise.filter _ h
+
+theorem cntSorted_tail {l : List Entry} (h : CntSorted l) : CntSorted l.tail := by
+  cases l with
+  | nil => exact h
+  | cons x xs => exact (List.pairwise_cons.mp h).2
+
+/-! ## the ghost, one atom at a time -/
+
+private theorem useCount_snoc {σ : Type} (keysOf : σ → List Key) (tr : STrace σ) (s : σ) (now : Time) (x : Atom) :
+    useCount keysOf (tr ++ [(s, now, x)]) = cntStep (keysOf s) (useCount keysOf tr) x := by
+  simp [useCount, List.foldl_append]
+
+/-! ## inversion of atom-level steps -/
+
+private theorem CStep.look_inv {σ : Type} {c : Core σ} {s s' : σ} {now : Time} {k : Key} {pk : Bool}
+    {r : Option (Val × Nat)} (h : CStep c s now (.look k pk r) s') :
+    r = (c.find1 s now k pk).2 ∧ s' = (c.find1 s now k pk).1 := by
+  generalize hx : Atom.look k pk r = x at h
+  cases h <;> first | (injection hx; done) | skip
+  injection hx with h1 h2 h3
+  subst h1 h2 h3
+  exact ⟨rfl, rfl⟩
+
+private theorem CStep.ins_inv {σ : Type} {c : Core σ} {s s' : σ} {now : Time} {k : Key} {v : Val}
+    {a : Allow} {d : Time} {ok : Bool} (h : CStep c s now (.ins k v a d ok) s') :
+    ∃ ttl, ok = (c.insert1 s now k v a ttl).2 ∧ s' = (c.insert1 s now k v a ttl).1 := by
+  generalize hx : Atom.ins k v a d ok = x at h
+  cases h <;> first | (injection hx; done) | skip
+  rename_i k' v' a' ttl
+  injection hx with h1 h2 h3 h4 h5
+  subst h1 h2 h3 h5
+  exact ⟨ttl, rfl, rfl⟩
+
+namespace Lfu
+
+/-- resident keys of a state -/
+abbrev K : LfuState → List Key := fun s => keys s.ents
+
+/-- the invariant carried along a run: structural invariant, truthful counts, sorted by count -/
+structure OInv (cap : Nat) (tr : STrace LfuState) (s : LfuState) : Prop where
+  inv : Inv cap s
+  cnt : ∀ e ∈ s.ents, e.cnt = useCount K tr e.key
+  sorted : CntSorted s.ents
+
+/-- the atoms that change neither the model state nor the ghost -/
+theorem oinv_same {cap : Nat} {p : STrace LfuState} {s : LfuState} {now : Time} {x : Atom}
+    (h : OInv cap p s) (hx : ∀ g, cntStep (K s) g x = g) : OInv cap (p ++ [(s, now, x)]) s :=
+  ⟨h.inv, by rw [useCount_snoc, hx]; exact h.cnt, h.sorted⟩
+
+/-- `do_access` of the resident entry of `k` (value possibly replaced) against a ghost that adds one
+to the count of `k` -/
+theorem oinv_access {cap : Nat} {p : STrace LfuState} {s : LfuState} {now : Time} {x : Atom}
+    {k : Key} {e e' : Entry} (h : OInv cap p s) (hg : getE s.ents k = some e)
+    (hk' : e'.key = e.key) (hc' : e'.cnt = e.cnt)
+    (hinv : Inv cap { s with ents := access s.ents e' })
+    (hx : cntStep (K s) (useCount K p) x = fun y => if y = k then useCount K p k + 1 else useCount K p y) :
+    OInv cap (p ++ [(s, now, x)]) { s with ents := access s.ents e' } := by
+  have hek := getE_key hg
+  refine ⟨hinv, ?_, ?_⟩
+  · intro y hy
+    rw [useCount_snoc, hx]
+    rcases mem_fileCnt.mp hy with hy | hy
+    · subst hy
+      show e'.cnt + 1 = if e'.key = k then _ else _
+      rw [if_pos (hk'.trans hek), hc', h.cnt e (getE_mem hg), hek]
+    · have hm := List.mem_filter.mp hy
+      have hne : y.key ≠ k := by
+        have := hm.2
+        rw [hk', hek] at this
+        simpa using this
+      simp only [hne, if_false]
+      exact h.cnt y hm.1
+  · exact cntSorted_fileCnt (cntSorted_delE h.sorted _) _
+
+theorem oinv_step (cap : Nat) (p : STrace LfuState) (s : LfuState) (now : Time) (x : Atom)
+    (s' : LfuState) (h : OInv cap p s) (hs : CStep core s now x s') :
+    OInv cap (p ++ [(s, now, x)]) s' := by
+  have hinv' : Inv cap s' := ((refines cap).cstep (now := now) h.inv hs).1
+  cases hs with
+  | pre => exact oinv_same h (fun _ => rfl)
+  | ins k v a ttl =>
+    revert hinv'
+    simp only [core, Lfu.insert1]
+    cases hg : getE s.ents k with
+    | some e =>
+      by_cases ha : a.upd = true
+      · simp only [ha, if_true]
+        intro hinv'
+        have hmem : k ∈ K s := getE_isSome_iff.mp (by simp [hg])
+        exact oinv_access (e' := { e with val := v }) h hg rfl rfl hinv'
+          (by simp only [cntStep, hmem, if_true])
+      · simp only [ha, Bool.false_eq_true, if_false]
+        intro _
+        exact oinv_same h (fun _ => rfl)
+    | none =>
+      have hk : k ∉ K s := getE_eq_none_iff.mp hg
+      by_cases ha : a.ins = true
+      · simp only [ha, if_true]
+        intro hinv'
+        refine ⟨hinv', ?_, ?_⟩
+        · intro y hy
+          rw [useCount_snoc]
+          simp only [cntStep, hk, if_false]
+          rcases mem_fileCnt.mp hy with hy | hy
+          · subst hy; simp
+          · have hys : y ∈ s.ents := by
+              split at hy
+              · exact List.mem_of_mem_tail hy
+              · exact hy
+            have hne : y.key ≠ k := fun hh => hk (hh ▸ List.mem_map_of_mem (f := (·.key)) hys)
+            simp only [hne, if_false]
+            exact h.cnt y hys
+        · apply cntSorted_fileCnt
+          split
+          · exact cntSorted_tail h.sorted
+          · exact h.sorted
+      · simp only [ha, Bool.false_eq_true, if_false]
+        intro _
+        exact oinv_same h (fun _ => rfl)
+  | look k peek =>
+    revert hinv'
+    simp only [core, Lfu.find1]
+    cases hg : getE s.ents k with
+    | none =>
+      intro _
+      exact oinv_same h (fun _ => by cases peek <;> rfl)
+    | some e =>
+      cases peek with
+      | true =>
+        simp only [if_true]
+        intro _
+        exact oinv_same h (fun _ => rfl)
+      | false =>
+        simp only [Bool.false_eq_true, if_false]
+        intro hinv'
+        exact oinv_access (e' := e) h hg rfl rfl hinv' (by simp only [cntStep])
+  | del k =>
+    revert hinv'
+    simp only [core, Lfu.erase1]
+    cases hg : getE s.ents k with
+    | none => intro _; exact oinv_same h (fun _ => rfl)
+    | some e =>
+      intro hinv'
+      refine ⟨hinv', ?_, cntSorted_delE h.sorted _⟩
+      intro y hy
+      rw [useCount_snoc]
+      exact h.cnt y (List.mem_filter.mp hy).1
+  | clear hc => simp [core] at hc
+  | reap => exact oinv_same h (fun _ => rfl)
+  | age => exact oinv_same h (fun _ => rfl)
+  | setTtl t => exact oinv_same h (fun _ => rfl)
+  | obsSize => exact oinv_same h (fun _ => rfl)
+  | obsEmpty => exact oinv_same h (fun _ => rfl)
+  | obsCap => exact oinv_same h (fun _ => rfl)
+
+theorem oinv_run {cap : Nat} (hcap : 0 < cap) {tr : STrace LfuState} {s : LfuState}
+    (hrun : CRun core (init cap) tr s) : OInv cap tr s := by
+  have h0 : OInv cap [] (init cap) :=
+    ⟨inv_init hcap, by simp [init], by simp [init, CntSorted]⟩
+  simpa using CRun.invariant (P := OInv cap) (oinv_step cap) h0 hrun
+
+end Lfu
+
 /-- **C11 (counts).** Every lookup that finds an entry reports its use count: 1 at creation, +1 per
 accepted update and per successful non-peek lookup — the current one included when not peeking. -/
 theorem C11_lfu_count (cap : Nat) (hcap : 0 < cap) {tr : STrace LfuState} {s s' : LfuState}
@@ -13,7 +203,25 @@ theorem C11_lfu_count (cap : Nat) (hcap : 0 < cap) {tr : STrace LfuState} {s s' 
     (hrun : CRun Lfu.core (Lfu.init cap) tr s)
     (hstep : CStep Lfu.core s now (.look k pk (some (v, n))) s') :
     n = useCount (fun s => keys s.ents) (tr ++ [(s, now, .look k pk (some (v, n)))]) k := by
-  sorry
+  have h := Lfu.oinv_run hcap hrun
+  obtain ⟨hr, _⟩ := CStep.look_inv hstep
+  rw [useCount_snoc]
+  simp only [Lfu.core, Lfu.find1] at hr
+  cases hg : getE s.ents k with
+  | none => simp [hg] at hr
+  | some e =>
+    have hc : e.cnt = useCount Lfu.K tr k := by
+      have := h.cnt e (getE_mem hg)
+      rwa [getE_key hg] at this
+    cases pk with
+    | true =>
+      simp only [hg, if_true, Option.some.injEq, Prod.mk.injEq] at hr
+      simp only [cntStep]
+      rw [hr.2]; exact hc
+    | false =>
+      simp only [hg, Bool.false_eq_true, if_false, Option.some.injEq, Prod.mk.injEq] at hr
+      simp only [cntStep, if_true]
+      rw [hr.2, hc]
 
 /-- **C11 (victim).** When an accepted insert of a new key finds the cache full, the entry removed has
 a use count that is minimal among the resident entries. -/
@@ -24,6 +232,46 @@ theorem C11_lfu_victim (cap : Nat) (hcap : 0 < cap) {tr : STrace LfuState} {s s'
     (hnew : k ∉ keys s.ents) (hfull : cap ≤ s.ents.length) :
     ∃ w, Evicts (keys s.ents) (keys s'.ents) k w ∧
       ∀ u ∈ keys s.ents, useCount (fun s => keys s.ents) tr w ≤ useCount (fun s => keys s.ents) tr u := by
-  sorry
+  have h := Lfu.oinv_run hcap hrun
+  obtain ⟨ttl, hok, hs'⟩ := CStep.ins_inv hstep
+  have hg : getE s.ents k = none := getE_eq_none_iff.mpr hnew
+  have hge : s.ents.length ≥ s.cap := by rw [h.inv.cap_eq]; exact hfull
+  simp only [Lfu.core, Lfu.insert1, hg] at hok hs'
+  by_cases ha : al.ins = true
+  · simp only [ha, if_true, hge] at hs'
+    subst hs'
+    have hcnt := h.cnt
+    have hsorted := h.sorted
+    have hnodup := h.inv.nodup
+    cases hl : s.ents with
+    | nil => rw [hl] at hfull; simp at hfull; omega
+    | cons e0 t =>
+      rw [hl] at hcnt hsorted hnodup hnew
+      simp only [List.tail_cons]
+      have hnd := hnodup
+      simp only [keys, List.map_cons, List.nodup_cons] at hnd
+      have hne : e0.key ≠ k := fun hh => hnew (by simp [keys, hh])
+      refine ⟨e0.key, ⟨by simp [keys], hne, ?_, ?_⟩, ?_⟩
+      · rw [mem_keys_fileCnt]
+        intro hh
+        rcases hh with hh | hh
+        · exact hne hh
+        · exact hnd.1 hh
+      · intro u hu hne'
+        rw [mem_keys_fileCnt]
+        right
+        simp only [keys, List.map_cons, List.mem_cons] at hu
+        rcases hu with hu | hu
+        · exact absurd hu hne'
+        · exact hu
+      · intro u hu
+        obtain ⟨e, he, hek⟩ := List.mem_map.mp hu
+        rw [← hek]
+        show useCount Lfu.K tr e0.key ≤ useCount Lfu.K tr e.key
+        rw [← hcnt e0 (by simp), ← hcnt e he]
+        rcases List.mem_cons.mp he with he | he
+        · subst he; exact Nat.le_refl _
+        · exact (List.pairwise_cons.mp hsorted).1 e he
+  · simp [ha] at hok
 
 end Verif
